@@ -114,14 +114,15 @@ func runC19(cfg runCfg) error {
 		cfgKeys   []string
 		world     *simWorld
 		gw        *gatewayUnderTest
+		jp        *plugins.JWTPlugin
 		pending   *c19Presented // a valid token of the previous case on this instance, to be presented again after its expiry
 	)
 	for ci := 0; ci < cfg.n; ci++ {
 		name := fmt.Sprintf("c19-%d-%d", cfg.seed, ci)
 		// configuration: one plugin and gateway instance serves a run of 1-4 consecutive cases, so that nothing one
 		// request leaves behind (decoded claims, roles) may influence the next
-		if left == 0 {
-			left = 1 + r.Intn(4)
+		reloaded := false
+		drawConfig := func(newKeys bool) []byte {
 			roleNames := []string{"admin", "user", "public_role"}
 			roles = map[string]string{}
 			for _, rn := range roleNames {
@@ -129,9 +130,11 @@ func runC19(cfg runCfg) error {
 					roles[rn] = []string{"all", "movies", "pet", "none"}[r.Intn(4)]
 				}
 			}
-			cfgKeys = []string{"k1"}
-			if r.Intn(2) == 0 {
-				cfgKeys = append(cfgKeys, "k2")
+			if newKeys {
+				cfgKeys = []string{"k1"}
+				if r.Intn(2) == 0 {
+					cfgKeys = append(cfgKeys, "k2")
+				}
 			}
 			pk := map[string]string{}
 			for _, k := range cfgKeys {
@@ -142,7 +145,22 @@ func runC19(cfg runCfg) error {
 				rolesJSON[rn] = json.RawMessage(c19Perms[p])
 			}
 			pc, _ := json.Marshal(map[string]interface{}{"public-keys": pk, "roles": rolesJSON})
-			jp := plugins.NewJWTPlugin(nil, nil)
+			return pc
+		}
+		if left > 0 && r.Intn(3) == 0 {
+			// the configuration is loaded again while the gateway runs (Config.Load configures the registered plugin anew; the
+			// router and its middleware were built once, at start-up): the role table in force is the one just loaded
+			if err := jp.Configure(&bramble.Config{}, drawConfig(false)); err != nil {
+				return err
+			}
+			pending = nil
+			reloaded = true
+			sum.Features["roles_reloaded_on_the_running_gateway"]++
+		}
+		if left == 0 {
+			left = 1 + r.Intn(4)
+			pc := drawConfig(true)
+			jp = plugins.NewJWTPlugin(nil, nil)
 			if err := jp.Configure(&bramble.Config{}, pc); err != nil {
 				return err
 			}
@@ -370,6 +388,9 @@ func runC19(cfg runCfg) error {
 			"; obs_headers := "+clist(seenHdrs)+"; obs_headers_uniform := "+cbool(len(hdrSets) <= 1)+" |}")
 		in := map[string]interface{}{"defect": defect, "via_cookie": viaCookie, "http_method_GET": viaGET, "roles": roles, "keys": cfgKeys, "role_claim": claims.Role, "status": resp.Status, "downstream_requests": len(reqs),
 			"history": fmt.Sprintf("request %d on the plugin instance first used by case c19-%d-%d; replay the cases from there in order", ci-instFirst+1, cfg.seed, instFirst)}
+		if reloaded {
+			in["history"] = fmt.Sprint(in["history"]) + "; the role table shown here was loaded into the running plugin (Configure) just before this request, the gateway and its middleware were not rebuilt"
+		}
 		sum.CaseInputs[name] = in
 		sum.Features["defect_"+defect]++
 		if len(sum.Samples) < 4 {
